@@ -227,6 +227,18 @@ class NamespaceMapper(MutableMapping[str, str]):
                 self.namespaces.update(xmlns)
                 if level:
                     self._reverse.update((v, k and k + ':') for k, v in xmlns)
+
+                    # A prefix redeclared for another namespace can't be used anymore
+                    # for mapping the names of the namespace that it shadows.
+                    for k, v in xmlns:
+                        prefix = k and k + ':'
+                        for uri in [u for u, p in self._reverse.items() if p == prefix and u != v]:
+                            for other, other_uri in self.namespaces.items():
+                                if other_uri == uri:
+                                    self._reverse[uri] = other and other + ':'
+                                    break
+                            else:
+                                del self._reverse[uri]
                 else:
                     self._reverse.update((v, k and k + ':') for k, v in reversed(xmlns)
                                          if v not in self._reverse)
